@@ -35,6 +35,7 @@ if [ $# -lt 2 ]; then
 fi
 
 if [ "$1" = "replay" ]; then
+  case "$2" in */replays/C02/*) exec "$HERE/checks/C02.sh" replay "$2" ;; esac
   id=$(python3 -c "import json,sys;print(json.load(open(sys.argv[1]))['property'])" "$2") || exit 2
   prof=$(profile_for "$id")
   build "$prof"
